@@ -8,8 +8,8 @@
 """
 import json, os, re, shutil, subprocess, sys, glob, time
 ENV = dict(os.environ, GOFLAGS='-mod=mod', GOPROXY='off', GOSUMDB='off', GOTOOLCHAIN='local')
-PKGDIR = {'data':'data','cdata':'data/cdata','functions':'models/functions','climate':'models/climate','routing':'models/routing','storage':'models/storage','rr':'models/rr',
-          'sim':'sim','fn':'util/fn','conversion':'models/conversion','generation':'models/generation','io':'io/json','models':'models','main':None, 'units':'conv/units'}
+PKGDIR = {'io':'io','data':'data','cdata':'data/cdata','functions':'models/functions','climate':'models/climate','routing':'models/routing','storage':'models/storage','rr':'models/rr',
+          'sim':'sim','fn':'util/fn','conversion':'models/conversion','generation':'models/generation','models':'models','main':None, 'units':'conv/units'}
 BASE = 'go test -mod=mod -vet=off -count=1 ./data/... ./io/json/... ./util/...'
 BUILD = 'go build ./data/... ./sim/... ./models/... ./util/... ./conv/... ./libopenwater/...'
 
@@ -69,10 +69,21 @@ def main():
             names = []
             for dm in demos:
                 shutil.copy(dm, os.path.join(wt, tgt, os.path.basename(dm))); names.append(os.path.basename(dm))
-            rc1, out1 = sh('go test -mod=mod -vet=off -count=1 ./%s/' % tgt, wt)
+            tests = []
+            for dm in demos:
+                tests += re.findall(r'^func (Test\w+)\(', open(dm).read(), re.M)
+            extra = "-run '^(%s)$' " % '|'.join(tests) if tests else ''
+            if tgt.startswith('io') and not tgt.startswith('io/json') or tgt.startswith('cmd/ow-sim'):
+                # no libhdf5 here: run the demo against /verif's in-memory stand-in through an alternative go.mod
+                mf = '/tmp/seed_fake_%d.mod' % os.getpid()
+                open(mf,'w').write(open(os.path.join(wt,'go.mod')).read() + '\nreplace gonum.org/v1/hdf5 => /verif/fakehdf5\n')
+                shutil.copy(os.path.join(wt,'go.sum'), mf[:-4]+'.sum')
+                extra += '-modfile=%s ' % mf
+                res['demo_run_against'] = '/verif/fakehdf5 (no libhdf5 in the image)'
+            rc1, out1 = sh('go test -mod=mod %s-vet=off -count=1 ./%s/' % (extra, tgt), wt)
             res['demo_fails_with_change'] = rc1 != 0
             sh('git checkout -q -- .', wt)
-            rc2, out2 = sh('go test -mod=mod -vet=off -count=1 ./%s/' % tgt, wt)
+            rc2, out2 = sh('go test -mod=mod %s-vet=off -count=1 ./%s/' % (extra, tgt), wt)
             res['demo_passes_without_change'] = rc2 == 0
             if rc2 != 0: res['demo_clean_out'] = out2[-500:]
             if rc1 == 0: res['demo_mut_out'] = out1[-300:]
